@@ -128,7 +128,9 @@ pub fn case_strategy() -> impl Strategy<Value = Case> {
     ];
     (
         (0u8..3, prop_oneof![3 => Just(0u8), 2 => Just(1u8), 2 => Just(2u8)], 0u8..3),
-        prop_oneof!["[a-z][a-z0-9]{0,8}(\\.[a-z][a-z0-9-]{0,6}[a-z0-9]){0,2}", Just("xn--bcher-kva.example".to_string()), Just("localhost".to_string())],
+        // generated labels never contain "--": a label that happens to start with "xn--" would be
+        // read as (invalid) punycode by URL parsing; the punycode case is the explicit constant
+        prop_oneof!["[a-z][a-z0-9]{0,8}(\\.[a-z][a-z0-9-]{0,6}[a-z0-9]){0,2}".prop_map(|d: String| d.replace("--", "-a")), Just("xn--bcher-kva.example".to_string()), Just("localhost".to_string())],
         any::<bool>(),
         prop_oneof![2 => Just("/".to_string()), 4 => "(/[A-Za-z0-9_~!$&'()*+,;=:@-][A-Za-z0-9._~!$&'()*+,;=:@-]{0,7}){1,6}/?", 1 => "(/%[3-7][0-9A-F][a-z]{0,3}){1,3}"],
         proptest::option::of("[A-Za-z0-9._~!$&()*+,;=:@/?%-]{0,24}"),
